@@ -110,3 +110,11 @@ add('C11', 'Hypothesis generated objects of every serialisable class + encode/de
     'the same getter values at two (T,P,x) points; re-encoding must be idempotent; json_to_pmutt must leave its input dictionary unchanged and be repeatable. Exploration only.',
     'Trusted: the snapshot function of vf/p11.py (constructor signature + a fixed list of identifying attributes).',
     'DESIGN.md 3/C11')
+add('C16', 'Hypothesis generated species networks / feeds / conditions + validity predicates on the returned composition (atom balance, KKT/affinity residual, Gibbs energy vs an independent element-potential Newton minimiser), metamorphic relations (species order, reuse of the object)',
+    'Networks of 2-12 gas species over 1-4 elements with NASA-7 thermodynamics tuned to drawn G/RT values (span up to 60), arbitrary non-negative feeds, T 300-2500 K, P 0.01-100 atm, models '
+    'given as list, dict or thermdat file: a result returned without warning/exception must conserve every element to 1e-7, have non-negative moles and mole fractions summing to one, leave no '
+    'reaction affinity among non-trace species (sum 1/2 x r^2 <= 1e-5 with x-weighted least-squares element potentials), have a Gibbs energy not above an independent reference minimiser '
+    '(dual Newton iteration converged to 1e-12), agree for permuted / reversed / rotated species listings, and a second call on the same object at other conditions must equal a fresh '
+    'object. Exploration only.',
+    'Trusted: the reference minimiser of vf/p16.py (cases where it does not converge are excluded and counted); tolerances express the solver tolerance through its second-order effect on G (1e-5 per mole).',
+    'DESIGN.md 3/C16')
